@@ -753,8 +753,12 @@ func writeEvidence(ps *PropSpec, tier string, seed int, results []*harnessResult
 		"violations":  viol,
 	}
 	b, _ := json.MarshalIndent(ev, "", " ")
-	os.MkdirAll(filepath.Join(verifDir, "evidence"), 0o755)
-	os.WriteFile(filepath.Join(verifDir, "evidence", ps.Property+".json"), b, 0o644)
+	evDir := filepath.Join(verifDir, "evidence")
+	if sym.RepoDir != "/repo" {
+		evDir = filepath.Join(os.TempDir(), "verif-evidence-alt") // a run against a scratch checkout never rewrites the evidence of /repo
+	}
+	os.MkdirAll(evDir, 0o755)
+	os.WriteFile(filepath.Join(evDir, ps.Property+".json"), b, 0o644)
 }
 
 func countReplays(rs []*harnessResult) int {
